@@ -10,8 +10,8 @@ from gen_create import random_callset, random_map, pop_sizes, random_projection
 from fractions import Fraction
 
 TOL = Fraction(1, 10**9)
-RULE = ("catalogue of 9 site classes (complete, complete other counts, partially missing in population A / in B, "
-        "multiallelic, insufficient for the projection, exactly sufficient, all-missing, monomorphic) for 4 samples in 2 "
+RULE = ("catalogue of 10 site classes (complete, complete other counts, partially missing in population A / in B, "
+        "multiallelic, insufficient for the projection, exactly sufficient, all-missing, monomorphic, a record without a GT key) for 4 samples in 2 "
         "populations: ALL ordered pairs and triples (quick: all pairs + seeded triples) x {no projection, 3 projection "
         "targets} through site::Reader, each record's Site value compared with the model (whose per-record result is proved "
         "state-independent); the same histories and 4-8 record histories as whole runs with 8 boundary targets (a population projected to length 1, no reduction) against the model's spectrum; on the binary: create(A++B) = create(A) + create(B) and every tested permutation of the "
@@ -30,6 +30,7 @@ CLASSES = {
     "exact": ["./.", "1/1", "./.", "0/1"],
     "allmissing": ["./.", "./.", "./.", "./."],
     "mono": ["0/0", "0/0", "0/0", "0/0"],
+    "nogt": ["NOGT", "NOGT", "NOGT", "NOGT"],          # FORMAT without a GT key (rendered as DP only): nobody has a genotype
 }
 PROJS = [None, ("s", [3, 3]), ("s", [5, 1]), ("s", [2, 4])]
 
